@@ -1,6 +1,7 @@
 import SRVerif.Driver.Util
 import SRVerif.Model.Solvers
 import SRVerif.Spec.Opt
+import SRVerif.Spec.ValidRoot
 
 open Lean
 
@@ -146,7 +147,8 @@ def valid : Handler := fun j => do
   let o ← otreeOf (← j.getObjVal? "O")
   let mode ← modeOf (← getStr j "mode")
   let sol ← solOf (← j.getObjVal? "sol")
-  pure (toJson (Spec.validSol mode o sol))
+  let root ← rootOf j
+  pure (toJson (Spec.validSolPre mode o root sol))
 
 /-- op `gen_all`: the exhaustive enumerator. -/
 def genAll : Handler := fun j => do
